@@ -113,6 +113,12 @@ impl<T: ZeroCopy + DeserializeInner, const N: usize> DeserializeHelper<Zero> for
     ) -> deser::Result<<Self as DeserializeInner>::DeserType<'a>> {
         backend.align::<T>()?;
         let bytes = std::mem::size_of::<[T; N]>();
+        if bytes == 0 {
+            // SAFETY: [T; N] is zero-sized, and after alignment the current
+            // position is a non-null pointer aligned for T; align_to() returns
+            // an empty middle slice for zero-sized types.
+            return Ok(unsafe { &*(backend.data.as_ptr() as *const [T; N]) });
+        }
         let (pre, data, after) = unsafe { backend.data[..bytes].align_to::<[T; N]>() };
         debug_assert!(pre.is_empty());
         debug_assert!(after.is_empty());
